@@ -68,6 +68,10 @@ def close(a, b):
   la, lb = jax.tree_util.tree_leaves(a), jax.tree_util.tree_leaves(b)
   if len(la) != len(lb):
     return False
+  for x, y in zip(la, lb):
+    # integer / boolean leaves are exact (a detour through float32 rounds integers above 2^24)
+    if np.asarray(y).dtype.kind in 'iub' and not np.array_equal(np.asarray(x), np.asarray(y)):
+      return False
   return all(np.asarray(x).shape == np.asarray(y).shape and np.asarray(x).dtype == np.asarray(y).dtype and np.allclose(np.asarray(x, np.float64), np.asarray(y, np.float64),
                                                                          rtol=1e-5, atol=1e-6, equal_nan=False)
              and np.all(np.isfinite(np.asarray(x, np.float64))) for x, y in zip(la, lb))
